@@ -101,6 +101,10 @@ pub struct Ev {
     pub z: u32,
 }
 
+/// Harness-side patience is a cap, never a verdict. Under Miri the virtual clock advances with every
+/// executed basic block, so caps are scaled up there.
+pub const CAP_SCALE: u64 = if cfg!(miri) { 200 } else { 1 };
+
 pub struct Gate {
     m: Mutex<GateSt>,
     cv: Condvar,
@@ -124,7 +128,7 @@ impl Gate {
         self.cv.notify_all();
         let mut rounds = 0u32;
         while !g.open && g.tokens == 0 {
-            let (ng, to) = self.cv.wait_timeout(g, Duration::from_secs(20)).unwrap();
+            let (ng, to) = self.cv.wait_timeout(g, Duration::from_secs(20 * CAP_SCALE)).unwrap();
             g = ng;
             if to.timed_out() {
                 rounds += 1;
@@ -164,7 +168,7 @@ impl Gate {
         let mut g = self.m.lock().unwrap();
         let mut rounds = 0;
         while !(g.waiting >= n && g.tokens == 0 && !g.open) {
-            let (ng, to) = self.cv.wait_timeout(g, Duration::from_secs(10)).unwrap();
+            let (ng, to) = self.cv.wait_timeout(g, Duration::from_secs(10 * CAP_SCALE)).unwrap();
             g = ng;
             if to.timed_out() {
                 rounds += 1;
@@ -180,7 +184,7 @@ impl Gate {
         let mut g = self.m.lock().unwrap();
         let mut rounds = 0;
         while g.passed < n {
-            let (ng, to) = self.cv.wait_timeout(g, Duration::from_secs(10)).unwrap();
+            let (ng, to) = self.cv.wait_timeout(g, Duration::from_secs(10 * CAP_SCALE)).unwrap();
             g = ng;
             if to.timed_out() {
                 rounds += 1;
@@ -400,7 +404,7 @@ impl Counter {
         let mut g = self.m.lock().unwrap();
         let t0 = std::time::Instant::now();
         while *g < n {
-            let left = Duration::from_secs(secs).saturating_sub(t0.elapsed());
+            let left = Duration::from_secs(secs * CAP_SCALE).saturating_sub(t0.elapsed());
             if left.is_zero() {
                 return false;
             }
